@@ -15,6 +15,7 @@
 package ice
 
 import (
+	"bytes"
 	"fmt"
 
 	"github.com/RoaringBitmap/roaring"
@@ -112,6 +113,13 @@ func (d *Dictionary) Close() error {
 func (d *Dictionary) Iterator(a segment.Automaton,
 	startKeyInclusive, endKeyExclusive []byte) segment.DictionaryIterator {
 	if d.fst != nil {
+		if startKeyInclusive != nil && endKeyExclusive != nil &&
+			bytes.Compare(startKeyInclusive, endKeyExclusive) >= 0 {
+			// empty key range: the FST iterator would still yield the start
+			// key itself when it is a term of the dictionary
+			return emptyDictionaryIterator
+		}
+
 		rv := &DictionaryIterator{
 			d: d,
 		}
